@@ -103,7 +103,8 @@ def compare_circuits(sim, x, y, tag, fields=True):
     if not same_unitary(unitary_of(x), unitary_of(y)):
         bad.append((f'{tag}-unitary', 'unitaries differ by more than 1e-12'))
     if fields:
-        d = deep_eq(x.__dict__, y.__dict__)
+        from bqskit.ir.gate import Gate
+        d = deep_eq(x.__dict__, y.__dict__, eq_types=(Gate,))
         if d:
             bad.append((f'{tag}-field', 'field differs at ' + d))
     return bad
@@ -347,3 +348,366 @@ def part_circuits(ck: Check, n_hist: int, length: int):
         ck.sample({'history_tail': r['calls'][-6:], 'circuit': r['ct'][:300],
                    'payload': (r['payload'] or '')[:300]})
     return len(recs)
+
+
+# ===================================================================== part B
+def sample_params(n, rng, k=3):
+    pts = [[0.0] * n, [((i * 7 + 3) % 11) / 8.0 - 0.5 for i in range(n)]]
+    for _ in range(max(0, k - 2)):
+        pts.append([rng.uniform(-3.2, 3.2) for _ in range(n)])
+    return pts
+
+
+def gate_unitary(g, p):
+    try:
+        return np.array(g.get_unitary(p))
+    except Exception as e:
+        return ('raise', type(e).__name__)
+
+
+def gate_case(lbl, thunk, rng, wl):
+    """Problems of one gate construction (list of (signature, what))."""
+    import dill
+    from bqskit.ir.circuit import Circuit
+    from bqskit.ir.gates import CircuitGate
+    from bqskit.ir.operation import Operation
+    from bqskit.utils.cachedclass import CachedClass
+    P = []
+    g, g2 = thunk(), thunk()
+    cls = type(g).__name__
+    images = []
+    for how, f in (('pickle', lambda o: pickle.loads(pickle.dumps(o))),
+                   ('pickle2', lambda o: pickle.loads(pickle.dumps(o, 2))),
+                   ('dill', lambda o: dill.loads(dill.dumps(o))),
+                   ('copy', copy.copy), ('deepcopy', copy.deepcopy),
+                   ('rebuilt', lambda o: g2)):
+        try:
+            images.append((how, f(g)))
+        except Exception as e:
+            P.append((f'gate-{how}-raises:{cls}', f'{lbl}: {e!r}'[:300]))
+    pts = sample_params(g.num_params, rng)
+    for how, p in images:
+        bad = []
+        try:
+            if not (p == g) or not (g == p) or (p != g):
+                bad.append('==')
+            if hash(p) != hash(g):
+                bad.append('hash')
+            if {g: 1}.get(p) != 1 or p not in {g} or g not in {p}:
+                bad.append('dict-key')
+        except Exception as e:
+            bad.append('raises ' + repr(e)[:80])
+        if (p.name != g.name or p.num_qudits != g.num_qudits
+                or tuple(p.radixes) != tuple(g.radixes)
+                or p.num_params != g.num_params or type(p) is not type(g)):
+            bad.append('metadata')
+        if int(np.prod(g.radixes)) <= 64:
+            for pt in pts:
+                if not same_unitary(gate_unitary(g, pt), gate_unitary(p, pt)):
+                    bad.append('unitary')
+                    break
+        if isinstance(g, CachedClass) and how in ('pickle', 'dill', 'copy',
+                                                  'deepcopy') and \
+                '__cache_key__' in g.__dict__:
+            key_hashable = True
+            try:
+                hash(g.__cache_key__[1])
+            except TypeError:
+                key_hashable = False
+            if key_hashable and p is not g and type(g).__new__ is \
+                    CachedClass.__new__ and _cached_args_hashable(g):
+                bad.append('singleton')
+        if how in ('pickle', 'dill', 'deepcopy') and p is not g:
+            sh = shared_mutables(g, p, wl)
+            if sh:
+                bad.append('shares ' + sh[0])
+        if bad:
+            P.append((f'gate-{how}:{cls}:' + ','.join(
+                b.split()[0] for b in bad),
+                f'{lbl}: image by {how} differs in ' + ', '.join(bad)))
+    # operation and circuit holding the gate
+    try:
+        loc = list(range(g.num_qudits))
+        rng.shuffle(loc)
+        op = Operation(g, loc, pts[-1])
+        po = pickle.loads(pickle.dumps(op))
+        if not (po == op and op == po) or hash(po) != hash(op) or \
+                list(po.params) != list(op.params) or \
+                po.location != op.location:
+            P.append((f'operation-pickle:{cls}', f'{lbl}: operation differs'))
+        rad = [0] * g.num_qudits
+        for q, r in zip(loc, g.radixes):
+            rad[q] = r
+        c = Circuit(g.num_qudits + 1, rad + [2])
+        c.append(op)
+        c.append_gate(g, loc, pts[1])
+        pc = pickle.loads(pickle.dumps(c))
+        if not (pc == c) or pc.gate_counts != c.gate_counts or \
+                list(pc.params) != list(c.params) or \
+                pc.num_cycles != c.num_cycles or \
+                [o.location for o in pc] != [o.location for o in c]:
+            P.append((f'circuit-pickle-gate:{cls}',
+                      f'{lbl}: one-gate circuit differs after pickle'))
+        if int(np.prod(c.radixes)) <= 128 and not same_unitary(
+                unitary_of(c, 128), unitary_of(pc, 128)):
+            P.append((f'circuit-pickle-gate-unitary:{cls}', lbl))
+        cc = c.copy()
+        if not (cc == c) or shared_mutables(c, cc, wl):
+            P.append((f'circuit-copy-gate:{cls}', f'{lbl}: copy differs or '
+                      'shares state'))
+        if not isinstance(g, CircuitGate):
+            blk = Circuit(g.num_qudits + 1, rad + [2])
+            blk.append_circuit(c, list(range(c.num_qudits)), True)
+            pb = pickle.loads(pickle.dumps(blk))
+            if not (pb == blk) or pb.gate_counts != blk.gate_counts or \
+                    not same_unitary(unitary_of(blk, 128),
+                                     unitary_of(pb, 128)):
+                P.append((f'circuit-pickle-nested:{cls}', lbl))
+    except Exception as e:
+        P.append((f'gate-in-circuit-raises:{cls}', f'{lbl}: {e!r}'[:300]))
+    return P
+
+
+def _cached_args_hashable(g):
+    from collections.abc import Hashable
+    from numpy.lib.mixins import NDArrayOperatorsMixin
+    _, args, kwargs = g.__cache_key__
+    return all(isinstance(a, Hashable)
+               and not isinstance(a, NDArrayOperatorsMixin)
+               for a in list(args) + list(kwargs.values()))
+
+
+def part_gates(ck: Check):
+    from harness import c16_gates
+    wl = whitelist()
+    cat, missing = c16_gates.catalogue(ck.rng, ck.tier == 'thorough')
+    if missing:
+        raise RuntimeError(f'gate classes without a construction: {missing}')
+    classes = set()
+    for lbl, thunk in cat:
+        try:
+            P = gate_case(lbl, thunk, ck.rng, wl)
+        except Exception as e:
+            raise RuntimeError(f'gate case {lbl}: {e!r}\n'
+                               + traceback.format_exc()[-1500:])
+        classes.add(lbl.split('(')[0])
+        ck.count(('gate', lbl))
+        ck.bump('gate_constructions')
+        for sig, what in P:
+            ck.violation(sig, what, {'construction': lbl})
+    ck.coverage['gate_classes_covered'] = len(classes)
+    ck.sample({'gate_constructions': [lbl for lbl, _ in cat[::23]]})
+    # equality must separate what differs (the converse direction)
+    part_gate_distinct(ck, cat)
+
+
+def is_prefix_pair(a, b) -> bool:
+    from bqskit.ir.gates import CircuitGate
+    if not (isinstance(a, CircuitGate) and isinstance(b, CircuitGate)):
+        return False
+    oa = [(o.gate, o.location) for o in a._circuit]
+    ob = [(o.gate, o.location) for o in b._circuit]
+    if len(oa) == len(ob):
+        return False
+    short, long_ = (oa, ob) if len(oa) < len(ob) else (ob, oa)
+    return long_[:len(short)] == short
+
+
+def part_gate_distinct(ck: Check, cat):
+    """Different constructions that `==` identifies must agree in hash and
+    unitary (otherwise equality is unsound / hash incoherent)."""
+    gates = []
+    for lbl, thunk in cat:
+        try:
+            gates.append((lbl, thunk()))
+        except Exception:
+            pass
+    n = 0
+    for i, (la, a) in enumerate(gates):
+        for lb, b in gates[i + 1:]:
+            try:
+                e1, e2 = (a == b), (b == a)
+            except Exception as e:
+                ck.violation(f'gate-eq-raises:{type(a).__name__}',
+                             f'{la} == {lb} raises {e!r}',
+                             {'a': la, 'b': lb})
+                continue
+            n += 1
+            if bool(e1) != bool(e2):
+                ck.violation(
+                    f'gate-eq-asymmetric:{type(a).__name__}:'
+                    f'{type(b).__name__}', f'{la} == {lb} is {e1} but the '
+                    f'converse is {e2}', {'a': la, 'b': lb})
+            prefix = is_prefix_pair(a, b)
+            if e1 is True and (hash(a) != hash(b)):
+                sig = f'eq-hash:{type(a).__name__}'
+                ck.violation(
+                    sig + ':prefix' if prefix else sig,
+                    WHAT[sig + ':prefix'] if prefix else
+                    f'{la} == {lb} but the hashes differ',
+                    {'a': la, 'b': lb})
+                continue
+            if e1 is True and tuple(a.radixes) == tuple(b.radixes) and \
+                    a.num_params == b.num_params and \
+                    int(np.prod(a.radixes)) <= 32:
+                pt = sample_params(a.num_params, ck.rng)[1]
+                if not same_unitary(gate_unitary(a, pt), gate_unitary(b, pt),
+                                    1e-9):
+                    ck.violation(
+                        f'eq-unsound:{type(a).__name__}',
+                        f'{la} == {lb} but their unitaries differ',
+                        {'a': la, 'b': lb})
+    ck.bump('gate_pairs_compared', None, n)
+
+
+# ===================================================================== part C
+def value_case(ck: Check, kind: str, label: str, x, wl, has_eq=True,
+               has_hash=True, unitary=None, has_ne=True):
+    """pickle / dill / copy / deepcopy of a value object."""
+    import dill
+    from bqskit.ir.gate import Gate
+    ck.count((kind, label))
+    ck.bump('objects_by_kind', kind)
+    for how, f in (('pickle', lambda o: pickle.loads(pickle.dumps(o))),
+                   ('dill', lambda o: dill.loads(dill.dumps(o))),
+                   ('deepcopy', copy.deepcopy), ('copy', copy.copy)):
+        try:
+            y = f(x)
+        except Exception as e:
+            ck.violation(f'{kind}-{how}-raises', f'{label}: {e!r}'[:300],
+                         {'object': label})
+            continue
+        bad = []
+        d = deep_eq(x, y, eq_types=(Gate,))
+        if d:
+            bad.append('field ' + d)
+        if has_eq:
+            try:
+                if not (x == y) or not (y == x) or (has_ne and (x != y)):
+                    bad.append('==')
+            except Exception as e:
+                bad.append('==raises ' + repr(e)[:60])
+        hash_bad = False
+        if has_hash:
+            try:
+                if hash(x) != hash(y) or {x: 1}.get(y) != 1:
+                    hash_bad = True
+            except Exception as e:
+                bad.append('hash-raises ' + repr(e)[:60])
+        if unitary is not None and not same_unitary(unitary(x), unitary(y)):
+            bad.append('unitary')
+        if how in ('pickle', 'dill', 'deepcopy'):
+            sh = shared_mutables(x, y, wl)
+            if sh:
+                bad.append('shares ' + sh[0])
+        if bad:
+            ck.violation(f'{kind}-{how}:' + ','.join(b.split()[0]
+                                                     for b in bad),
+                         f'{label}: image by {how} differs in '
+                         + ', '.join(bad), {'object': label})
+        if hash_bad:
+            sig = f'eq-hash:{kind}'
+            if kind in ('CouplingGraph', 'MachineModel'):
+                sig = 'eq-hash:CouplingGraph:set-order'
+            ck.violation(sig, WHAT.get(sig) or f'{label}: equal after {how} '
+                         'but hash differs / not found as dict key',
+                         {'object': label, 'how': how})
+
+
+def rand_graph(rng, n, p=0.4):
+    return [(a, b) for a in range(n) for b in range(a + 1, n)
+            if rng.random() < p]
+
+
+def part_objects(ck: Check, n: int):
+    from bqskit.compiler.gateset import GateSet
+    from bqskit.compiler.machine import MachineModel
+    from bqskit.ir.gates import (CNOTGate, CSUMGate, CZGate, HGate, RZGate,
+                                 ShiftGate, SqrtXGate, U3Gate,
+                                 VariableUnitaryGate, PauliGate,
+                                 ConstantUnitaryGate, ControlledGate)
+    from bqskit.qis.graph import CouplingGraph
+    from bqskit.qis.state.state import StateVector
+    from bqskit.qis.state.system import StateSystem
+    from bqskit.qis.unitary.unitarymatrix import UnitaryMatrix
+    from harness import c16_gates
+    rng = ck.rng
+    wl = whitelist()
+    gate_sets = [
+        [CNOTGate(), U3Gate()], [CZGate(), RZGate(), SqrtXGate()],
+        [CSUMGate(3), ShiftGate(3), HGate(3)],
+        [CNOTGate(), CSUMGate(3), U3Gate(), HGate(3)],
+        [VariableUnitaryGate(2), PauliGate(1)],
+        [ConstantUnitaryGate(c16_gates.perm_unitary((2, 2), rng)), U3Gate(),
+         ControlledGate(RZGate())],
+    ]
+    for gs in gate_sets:
+        value_case(ck, 'GateSet', str([g.name for g in gs]), GateSet(gs), wl)
+    for i in range(n):
+        nq = rng.randint(1, 9)
+        edges = rand_graph(rng, nq, rng.choice([0.2, 0.5, 0.9]))
+        rng.shuffle(edges)
+        if rng.random() < 0.5:
+            edges = [(b, a) if rng.random() < 0.5 else (a, b)
+                     for a, b in edges]
+        remote = [e for e in edges if rng.random() < 0.25]
+        over = {e: rng.choice([0.5, 2.0, 7.25]) for e in edges
+                if rng.random() < 0.2}
+        kw = {}
+        if rng.random() < 0.5:
+            kw = dict(remote_edges=remote, default_weight=rng.choice([1.0, 3]),
+                      default_remote_weight=rng.choice([100.0, 11.5]),
+                      edge_weights_overrides=over)
+        try:
+            g = CouplingGraph(edges, nq, **kw)
+        except Exception:
+            continue
+        lbl = f'CouplingGraph({edges},{nq},{kw})'
+        value_case(ck, 'CouplingGraph', lbl, g, wl)
+        g2 = CouplingGraph(sorted(edges), nq, **kw)
+        if g == g2 and hash(g) != hash(g2):
+            ck.violation('eq-hash:CouplingGraph:set-order',
+                         WHAT['eq-hash:CouplingGraph:set-order'],
+                         {'edges': edges, 'num_qudits': nq})
+        radixes = [rng.choice([2, 2, 3]) for _ in range(nq)]
+        pool = rng.choice(gate_sets)
+        okg = [x for x in pool if set(x.radixes) <= set(radixes)]
+        try:
+            m = MachineModel(nq, g if rng.random() < 0.7 else None,
+                             okg or None if rng.random() < 0.7 else None,
+                             radixes if rng.random() < 0.7 else [])
+        except Exception:
+            continue
+        value_case(ck, 'MachineModel', f'MachineModel({nq},{edges},'
+                   f'{[x.name for x in okg]},{radixes})', m, wl,
+                   has_eq=False, has_hash=False)
+        pm = pickle.loads(pickle.dumps(m))
+        if pm.coupling_graph == m.coupling_graph and \
+                hash(pm.coupling_graph) != hash(m.coupling_graph):
+            ck.violation('eq-hash:CouplingGraph:set-order',
+                         WHAT['eq-hash:CouplingGraph:set-order'],
+                         {'edges': edges, 'num_qudits': nq, 'via':
+                          'MachineModel'})
+        if pm.gate_set != m.gate_set or hash(pm.gate_set) != hash(m.gate_set) \
+                or tuple(pm.radixes) != tuple(m.radixes) \
+                or pm.num_qudits != m.num_qudits:
+            ck.violation('MachineModel-pickle:public', 'gate_set/radixes '
+                         'differ after pickle', {'num_qudits': nq})
+    for i in range(max(4, n // 3)):
+        rad = rng.choice([(2,), (3,), (2, 2), (2, 3), (3, 2, 2), (2, 2, 2)])
+        u = c16_gates.rand_unitary(rad, rng)
+        # (UnitaryMatrix / StateVector inherit numpy's elementwise `!=`)
+        value_case(ck, 'UnitaryMatrix', f'UnitaryMatrix{rad}', u, wl,
+                   unitary=lambda o: np.array(o), has_ne=False)
+        d = int(np.prod(rad))
+        v = StateVector(np.array(u)[:, 0], rad)
+        value_case(ck, 'StateVector', f'StateVector{rad}', v, wl,
+                   unitary=lambda o: np.array(o.numpy), has_ne=False)
+        k = rng.randint(1, min(3, d))
+        ins = np.eye(d)[:, :k]
+        outs = np.array(u)[:, :k]
+        ss = StateSystem({StateVector(ins[:, j], rad):
+                          StateVector(outs[:, j], rad) for j in range(k)})
+        value_case(ck, 'StateSystem', f'StateSystem{rad}x{k}', ss, wl,
+                   has_eq=False, has_hash=False,
+                   unitary=lambda o: np.array(o.target))
